@@ -1,13 +1,18 @@
 package seqpart
 
 import (
-	"context"
+	"bufio"
+	"bytes"
+	"encoding/json"
+	"errors"
 	"fmt"
+	"io"
 	"os"
+	"os/exec"
 	"runtime"
-	"runtime/debug"
 	"sort"
 	"strconv"
+	"strings"
 	"sync"
 	"sync/atomic"
 	"time"
@@ -16,338 +21,355 @@ import (
 )
 
 const (
-	fastWait      = 100 * time.Millisecond // the worker itself waits this long, then parks the case
-	hangTimeout   = 10 * time.Second       // generous: a case normally takes microseconds
-	maxParked     = 4096
-	maxHangTriage = 32
+	maxCrashTriage  = 24 // worker deaths analysed down to the case and the operator
+	crashesPerTag   = 3  // after this many, programs containing that operator are skipped (and counted)
+	crashesPerProg  = 4
+	requestBackstop = 5 * time.Minute
+	childGOMAXPROCS = "4"
+	stderrKeep      = 4000
 )
 
-// ---------------------------------------------------------------- running one case under the watchdog
+// ---------------------------------------------------------------- worker process handle
 
-type handle struct {
-	done   chan outcome
-	cancel context.CancelFunc
-	start  time.Time
+type headBuffer struct {
+	mu  sync.Mutex
+	buf bytes.Buffer
 }
 
-func launch(p *program, injs []inj) *handle {
-	ctx, cancel := context.WithCancel(context.Background())
-	e := &runEnv{ctx: ctx, injs: injs, calls: make([]atomic.Int32, p.nfn)}
-	h := &handle{done: make(chan outcome, 1), cancel: cancel, start: time.Now()}
-	go func() { h.done <- execute(p, e) }()
-	return h
-}
-
-func (h *handle) wait(d time.Duration) (outcome, bool) {
-	select {
-	case o := <-h.done:
-		return o, true
-	default:
+func (h *headBuffer) Write(p []byte) (int, error) {
+	h.mu.Lock()
+	defer h.mu.Unlock()
+	if room := stderrKeep - h.buf.Len(); room > 0 {
+		if len(p) < room {
+			room = len(p)
+		}
+		h.buf.Write(p[:room])
 	}
-	t := time.NewTimer(d)
-	defer t.Stop()
-	select {
-	case o := <-h.done:
-		return o, true
-	case <-t.C:
-		return outcome{}, false
+	return len(p), nil
+}
+
+func (h *headBuffer) String() string {
+	h.mu.Lock()
+	defer h.mu.Unlock()
+	return h.buf.String()
+}
+
+type child struct {
+	cmd    *exec.Cmd
+	stdin  io.WriteCloser
+	rd     *bufio.Reader
+	stderr *headBuffer
+}
+
+var errWorkerDied = errors.New("worker process died")
+
+func spawn(exe string) (*child, error) {
+	cmd := exec.Command(exe)
+	cmd.Env = append(os.Environ(), workerEnv+"=1", "GOMAXPROCS="+childProcs())
+	c := &child{cmd: cmd, stderr: &headBuffer{}}
+	cmd.Stderr = c.stderr
+	var err error
+	if c.stdin, err = cmd.StdinPipe(); err != nil {
+		return nil, err
 	}
-}
-
-// runBlocking: used by triage only.
-func runBlocking(p *program, injs []inj) (outcome, bool) {
-	h := launch(p, injs)
-	o, ok := h.wait(hangTimeout)
-	h.cancel()
-	return o, ok
-}
-
-// ---------------------------------------------------------------- verdicts
-
-type verdict struct {
-	class string // "", seq-mismatch, yields-after-error, panic, hang, join
-	sig   string // complete signature for class join
-	exp   observation
-	note  string
-}
-
-// assess compares an outcome with the specification. It does not blame.
-func assess(p *program, injs []inj, out outcome, hung bool) verdict {
-	es := newEvalEnv(p, injs, strict)
-	exp := evalProgram(p, es)
-	v := verdict{exp: exp}
-	switch {
-	case hung:
-		v.class = "hang"
-		return v
-	case out.panicked != "":
-		v.class = "panic"
-		return v
-	case out.runaway:
-		v.class = "seq-mismatch"
-		v.note = "ReadOne never returned an error"
-		return v
+	so, err := cmd.StdoutPipe()
+	if err != nil {
+		return nil, err
 	}
-	if !exp.equal(out.obs) {
-		v.class = "seq-mismatch"
-		if es.eofInEarlierOperand || es.errInEarlierOperand {
-			e2 := newEvalEnv(p, injs, eofContinues)
-			if x := evalProgram(p, e2); x.equal(out.obs) {
-				// a Transform function returned io.EOF inside a non-last
-				// Join/Chain operand and the next operand was still
-				// delivered: io.EOF is also the ordinary end-of-operand
-				// signal, so the statement does not decide this case.
-				v.class, v.note = "", "eof-in-earlier-operand-continues"
-			} else if e2.errInEarlierOperand || es.errInEarlierOperand {
-				e3 := newEvalEnv(p, injs, allContinue)
-				if y := evalProgram(p, e3); y.equal(out.obs) {
-					v.class = "join"
-					v.sig = "join/error-in-first-operand-not-truncating/" + opNames[firstNary(p.root)]
-				}
+	c.rd = bufio.NewReaderSize(so, 1<<16)
+	return c, cmd.Start()
+}
+
+func (c *child) stop() {
+	_ = c.stdin.Close()
+	_ = c.cmd.Process.Kill()
+	_ = c.cmd.Wait()
+}
+
+// do sends one request and reads its response. died != "" describes why the
+// worker is gone (it has been reaped).
+func (c *child) do(rq request, onTrace func(int64)) (resp response, died string) {
+	body, _ := json.Marshal(rq)
+	backstop := time.AfterFunc(requestBackstop, func() { _ = c.cmd.Process.Kill() })
+	defer backstop.Stop()
+	if _, err := c.stdin.Write(append(body, '\n')); err != nil {
+		c.stop()
+		return resp, "worker process died: " + c.stderr.String()
+	}
+	for {
+		line, err := c.rd.ReadString('\n')
+		if err != nil {
+			c.stop()
+			return resp, "worker process died: " + c.stderr.String()
+		}
+		switch {
+		case line == "\n":
+			continue
+		case line[0] == '@':
+			if n, perr := strconv.ParseInt(strings.TrimSpace(line[1:]), 10, 64); perr == nil && onTrace != nil {
+				onTrace(n)
 			}
+			continue
+		case line[0] == '!':
+			c.stop()
+			return resp, strings.TrimSpace(line[1:])
 		}
-		if v.class != "" {
-			return v
+		if err := json.Unmarshal([]byte(line), &resp); err != nil {
+			c.stop()
+			return resp, "worker sent an unparsable line " + strconv.Quote(line) + "; stderr: " + c.stderr.String()
 		}
+		return resp, ""
 	}
-	if len(out.extraYield) > 0 {
-		v.class = "yields-after-error"
-	}
-	return v
 }
 
-func firstNary(n *node) opKind {
-	if n.k.isNary() {
-		return n.k
+// ---------------------------------------------------------------- supervisor
+
+type super struct {
+	exe      string
+	deadline time.Time
+	timedOut atomic.Bool
+
+	mu        sync.Mutex
+	best      map[string]*wireFinding
+	sigCount  map[string]int
+	notes     map[string]int
+	crashTags map[string]int
+	tot       response
+
+	programs, skippedBlocked, crashes, crashesUntriaged, abandoned, spawnErrors, spawns atomic.Int64
+	order                                                                               atomic.Int64
+}
+
+func (s *super) merge(r response) {
+	s.mu.Lock()
+	defer s.mu.Unlock()
+	s.tot.Cases += r.Cases
+	s.tot.Transitions += r.Transitions
+	s.tot.Nontrivial += r.Nontrivial
+	s.tot.Injected += r.Injected
+	s.tot.Parked += r.Parked
+	s.tot.Hangs += r.Hangs
+	s.tot.Untriaged += r.Untriaged
+	for k, v := range r.Notes {
+		s.notes[k] += v
+	}
+	for k, v := range r.SigCounts {
+		s.sigCount[k] += v
+	}
+	for i := range r.Findings {
+		s.offer(&r.Findings[i])
+	}
+}
+
+// offer: keep the smallest reproducer per signature (caller holds s.mu).
+func (s *super) offer(f *wireFinding) {
+	if b := s.best[f.Sig]; b == nil || f.Weight < b.Weight || (f.Weight == b.Weight && f.Order < b.Order) {
+		s.best[f.Sig] = f
+	}
+}
+
+func (s *super) newChild() *child {
+	c, err := spawn(s.exe)
+	if err != nil {
+		s.spawnErrors.Add(1)
+		return nil
+	}
+	s.spawns.Add(1)
+	return c
+}
+
+func tagBase(tag string) string { b, _, _ := strings.Cut(tag, "+"); return b }
+
+func (s *super) blocked(n *node) bool {
+	s.mu.Lock()
+	hit := s.crashTags[opNames[n.k]] >= crashesPerTag
+	s.mu.Unlock()
+	if hit {
+		return true
 	}
 	for _, k := range n.kids {
-		if r := firstNary(k); r.isNary() {
-			return r
+		if s.blocked(k) {
+			return true
 		}
 	}
-	return n.k
+	return false
 }
 
-func subProgram(p *program, root *node, sink sinkSpec) *program {
-	q := &program{root: root, sink: sink, sinkFid: -1, nfn: p.nfn + 1, nops: p.nops}
-	if sink.hasFn() {
-		if sink.k == p.sink.k {
-			q.sinkFid = p.sinkFid
-		} else {
-			q.sinkFid = p.nfn
+func (s *super) finish(c *child) {
+	if c == nil {
+		return
+	}
+	if resp, died := c.do(request{Flush: true}, nil); died == "" {
+		s.merge(resp)
+		c.stop()
+	}
+}
+
+func (s *super) worker(queue <-chan work) {
+	var ch *child
+	defer func() { s.finish(ch) }()
+	for wk := range queue {
+		if s.timedOut.Load() {
+			continue
+		}
+		if time.Now().After(s.deadline) {
+			s.timedOut.Store(true)
+			continue
+		}
+		if s.blocked(wk.p.root) {
+			s.skippedBlocked.Add(1)
+			continue
+		}
+		if ch == nil {
+			if ch = s.newChild(); ch == nil {
+				continue
+			}
+		}
+		s.programs.Add(1)
+		rq := makeRequest(wk.p)
+		rq.MaxInj = wk.maxInj
+		rq.Order = s.order.Add(1) << 20
+		resp, died := ch.do(rq, nil)
+		if died != "" {
+			ch = nil
+			s.crashed(wk, rq, died)
+			continue
+		}
+		s.merge(resp)
+		if resp.Hangs > 0 {
+			// a stuck case may be spinning: retire this process
+			s.finish(ch)
+			ch = nil
 		}
 	}
-	return q
 }
 
-// blame finds the operator to tag: the root operator of the smallest
-// sub-pipeline (same inputs, same injections, same sink) that shows the same
-// class of failure; "+<sink>" is appended when the failing pipeline is fine
-// under the plain Slice sink.
-func blame(p *program, injs []inj, class string) string {
+func nthInjection(p *program, maxInj int, n int64) (out []inj) {
+	i := int64(0)
+	forEachInjection(p, maxInj, func(injs []inj) bool {
+		i++
+		if i == n {
+			out = append([]inj{}, injs...)
+			return false
+		}
+		return true
+	})
+	return out
+}
+
+// probe runs one case in a throw-away worker: class of failure, or died.
+func (s *super) probe(p *program, injs []inj) (class string, died string) {
+	c := s.newChild()
+	if c == nil {
+		return "", ""
+	}
+	rq := makeRequest(p)
+	rq.Probe, rq.UseOnly, rq.Only = true, true, injsToWire(injs)
+	resp, died := c.do(rq, nil)
+	if died == "" {
+		c.stop()
+	}
+	return resp.ProbeClass, died
+}
+
+func (s *super) blameCrash(p *program, injs []inj) string {
 	subs := p.root.subtrees()
-	type res struct{ fails bool }
-	results := make([]res, len(subs))
-	var wg sync.WaitGroup
-	for i, s := range subs[:len(subs)-1] {
-		wg.Add(1)
-		go func(i int, s *node) {
-			defer wg.Done()
-			q := subProgram(p, s, p.sink)
-			o, ok := runBlocking(q, injs)
-			results[i].fails = assess(q, injs, o, !ok).class == class
-		}(i, s)
-	}
-	withSlice := true
-	if p.sink.k != sinkSlice {
-		wg.Add(1)
-		go func() {
-			defer wg.Done()
-			q := subProgram(p, p.root, sinkSpec{sinkSlice, 0})
-			o, ok := runBlocking(q, injs)
-			withSlice = assess(q, injs, o, !ok).class != ""
-		}()
-	}
-	wg.Wait()
-	for i, s := range subs[:len(subs)-1] {
-		if results[i].fails {
-			return opNames[s.k]
+	for _, sub := range subs[:len(subs)-1] {
+		if _, died := s.probe(subProgram(p, sub, p.sink), injs); died != "" {
+			return opNames[sub.k]
 		}
 	}
 	tag := opNames[p.root.k]
-	if !withSlice {
-		tag += "+" + p.sink.name()
+	if p.sink.k != sinkSlice {
+		if _, died := s.probe(subProgram(p, p.root, sinkSpec{sinkSlice, 0}), injs); died == "" {
+			tag += "+" + p.sink.name()
+		}
 	}
 	return tag
 }
 
-// ---------------------------------------------------------------- the check
-
-type finding struct {
-	sig    string
-	weight int
-	order  int64
-	replay map[string]any
-}
-
-type checker struct {
-	mu          sync.Mutex
-	best        map[string]*finding
-	sigCount    map[string]int
-	notes       map[string]int
-	cases       atomic.Int64
-	transitions atomic.Int64
-	programs    atomic.Int64
-	nontrivial  atomic.Int64
-	injected    atomic.Int64
-	parkedEver  atomic.Int64
-	hangs       atomic.Int64
-	hangTriage  atomic.Int64
-	untriaged   atomic.Int64
-	parked      chan struct{}
-	wg          sync.WaitGroup
-}
-
-func injStrings(injs []inj) []string {
-	out := make([]string, len(injs))
-	for i, x := range injs {
-		out[i] = x.String()
-	}
-	return out
-}
-
-func (c *checker) record(sig string, p *program, injs []inj, order int64, out outcome, v verdict) {
-	w := p.root.size()*4 + len(injs)
-	c.mu.Lock()
-	defer c.mu.Unlock()
-	c.sigCount[sig]++
-	if b := c.best[sig]; b != nil && (b.weight < w || (b.weight == w && b.order <= order)) {
+// crashed: the worker died while running wk. Find the case (trace mode),
+// the operator (probes), record, and run the rest of the program's cases.
+func (s *super) crashed(wk work, rq request, died string) {
+	s.crashes.Add(1)
+	if s.crashes.Load() > maxCrashTriage {
+		s.crashesUntriaged.Add(1)
 		return
 	}
-	got := out.obs.String()
-	if v.class == "hang" {
-		got = fmt.Sprintf("no result within %s (context then cancelled)", hangTimeout)
-	} else if v.class == "panic" {
-		got = "panic: " + out.panicked
-	}
-	c.best[sig] = &finding{sig: sig, weight: w, order: order, replay: map[string]any{
-		"program":                  p.String(),
-		"injections":               injStrings(injs),
-		"expected":                 v.exp.String(),
-		"got":                      got,
-		"values_after_first_error": out.extraYield,
-		"first_readone_error":      out.firstErr,
-		"sink_error":               out.sinkErr,
-		"close_error":              out.closeErr,
-		"note":                     v.note,
-		"legend": "sources carry their input slice; #fN numbers the user functions (generator producer, Transform function, Reduce/Process function); " +
-			"fN@callK=E makes the K-th call (0-based) of function N return E; menus: predicates " + fmt.Sprint(predNames) + ", mappers " + fmt.Sprint(mapNames) +
-			"; Indexed is followed by ConvertIterator(pair -> idx*10+value); fold is acc*31+item+1 (itertool.Reduce starts at 5)",
-	}}
-}
-
-func (c *checker) judge(p *program, injs []inj, order int64, out outcome, hung bool) {
-	v := assess(p, injs, out, hung)
-	if v.note != "" && v.class == "" {
-		c.mu.Lock()
-		c.notes[v.note]++
-		c.mu.Unlock()
-	}
-	switch v.class {
-	case "":
-		return
-	case "join":
-		c.record(v.sig, p, injs, order, out, v)
-		return
-	case "hang":
-		c.hangs.Add(1)
-		if c.hangTriage.Add(1) > maxHangTriage {
-			c.untriaged.Add(1)
+	skip := int64(0)
+	for attempt := 0; attempt < crashesPerProg; attempt++ {
+		t := s.newChild()
+		if t == nil {
+			break
+		}
+		rq2 := rq
+		rq2.Trace, rq2.Skip = true, skip
+		last := int64(0)
+		resp, died2 := t.do(rq2, func(n int64) { last = n })
+		if died2 == "" {
+			s.merge(resp)
+			s.finish(t)
+			if attempt == 0 {
+				// did not die a second time: report at program level
+				s.recordCrash(opNames[wk.p.root.k], wk.p, nil, rq.Order, died, "the worker died while this program's cases were running; a second, traced run of the same cases completed")
+			}
 			return
 		}
+		injs := nthInjection(wk.p, wk.maxInj, last)
+		tag := s.blameCrash(wk.p, injs)
+		s.recordCrash(tag, wk.p, injs, rq.Order+last, died2, "")
+		skip = last
 	}
-	tag := blame(p, injs, v.class)
-	c.record("pipeline/"+v.class+"/"+tag, p, injs, order, out, v)
+	s.abandoned.Add(1)
 }
 
-func (c *checker) runCase(p *program, injs []inj, order int64) {
-	c.cases.Add(1)
-	c.transitions.Add(int64(p.nops))
-	if len(injs) > 0 {
-		c.injected.Add(1)
+func (s *super) recordCrash(tag string, p *program, injs []inj, order int64, died, note string) {
+	class := "panic"
+	if strings.HasPrefix(died, "memory:") {
+		class = "hang"
 	}
-	h := launch(p, injs)
-	out, ok := h.wait(fastWait)
-	if ok {
-		h.cancel()
-		if len(out.obs.seq) > 0 || out.obs.val != 0 || out.obs.flag {
-			c.nontrivial.Add(1)
-		}
-		c.judge(p, injs, order, out, false)
-		return
-	}
-	// slow (or stuck): park it, keep the worker going
-	c.parkedEver.Add(1)
-	c.parked <- struct{}{}
-	c.wg.Add(1)
-	go func() {
-		defer c.wg.Done()
-		defer func() { <-c.parked }()
-		out, ok := h.wait(hangTimeout - fastWait)
-		h.cancel()
-		c.judge(p, injs, order, out, !ok)
-	}()
+	f := &wireFinding{Sig: "pipeline/" + class + "/" + tag, Weight: p.root.size()*4 + len(injs), Order: order, Replay: map[string]any{
+		"program":    p.String(),
+		"injections": injStrings(injs),
+		"expected":   evalProgram(p, newEvalEnv(p, injs, strict)).String(),
+		"got":        died,
+		"note":       note,
+	}}
+	s.mu.Lock()
+	defer s.mu.Unlock()
+	s.sigCount[f.Sig]++
+	s.crashTags[tagBase(tag)]++
+	s.offer(f)
 }
 
 func Run(r *rep.Report, tier string) {
-	// The live heap is tiny and every case allocates: with the default pacer
-	// the collector runs continuously. Collect only when 1GiB has accumulated.
-	defer debug.SetGCPercent(debug.SetGCPercent(-1))
-	defer debug.SetMemoryLimit(debug.SetMemoryLimit(1 << 30))
 	b := boundsFor(tier)
 	budget := 50 * time.Second
 	if tier == "thorough" {
 		budget = 9 * time.Minute
 	}
-	deadline := time.Now().Add(budget)
-
-	c := &checker{best: map[string]*finding{}, sigCount: map[string]int{}, notes: map[string]int{},
-		parked: make(chan struct{}, maxParked)}
+	exe, err := os.Executable()
+	if err != nil {
+		r.Set("exhaustive", false)
+		r.Set("error", err.Error())
+		return
+	}
+	s := &super{exe: exe, deadline: time.Now().Add(budget), best: map[string]*wireFinding{}, sigCount: map[string]int{},
+		notes: map[string]int{}, crashTags: map[string]int{}}
 	workers := 2 * runtime.NumCPU() // cases are latency bound (goroutine hand-offs), not CPU bound
 	if n, err := strconv.Atoi(os.Getenv("VERIF_C02_WORKERS")); err == nil && n > 0 {
 		workers = n
 	}
-	queue := make(chan work, 1024)
-	var order atomic.Int64
-	var timedOut atomic.Bool
-	var wwg sync.WaitGroup
+	queue := make(chan work, 4096)
+	var wg sync.WaitGroup
 	for w := 0; w < workers; w++ {
-		wwg.Add(1)
-		go func() {
-			defer wwg.Done()
-			for wk := range queue {
-				if timedOut.Load() {
-					continue
-				}
-				c.programs.Add(1)
-				base := order.Add(1) << 16
-				n := int64(0)
-				forEachInjection(wk.p, wk.maxInj, func(injs []inj) bool {
-					n++
-					c.runCase(wk.p, injs, base+n)
-					if n%64 == 0 && time.Now().After(deadline) {
-						timedOut.Store(true)
-						return false
-					}
-					return true
-				})
-			}
-		}()
+		wg.Add(1)
+		go func() { defer wg.Done(); s.worker(queue) }()
 	}
 	fam := map[string]int{}
 	enumerate(b, func(w work) bool {
-		if timedOut.Load() || time.Now().After(deadline) {
-			timedOut.Store(true)
+		if s.timedOut.Load() || time.Now().After(s.deadline) {
+			s.timedOut.Store(true)
 			return false
 		}
 		fam[w.family]++
@@ -355,45 +377,55 @@ func Run(r *rep.Report, tier string) {
 		return true
 	})
 	close(queue)
-	wwg.Wait()
-	c.wg.Wait()
+	wg.Wait()
 
-	sigs := make([]string, 0, len(c.best))
-	for s := range c.best {
-		sigs = append(sigs, s)
+	sigs := make([]string, 0, len(s.best))
+	for sig := range s.best {
+		sigs = append(sigs, sig)
 	}
 	sort.Strings(sigs)
 	counts := map[string]int{}
-	for _, s := range sigs {
-		f := c.best[s]
-		f.replay["cases_with_this_signature"] = c.sigCount[s]
-		counts[s] = c.sigCount[s]
-		r.Violation(s, f.replay)
+	for _, sig := range sigs {
+		f := s.best[sig]
+		f.Replay["cases_with_this_signature"] = s.sigCount[sig]
+		counts[sig] = s.sigCount[sig]
+		r.Violation(sig, f.Replay)
 	}
 
-	cases := int(c.cases.Load())
+	cases := int(s.tot.Cases)
 	r.Add("states", cases)
-	r.Add("transitions", int(c.transitions.Load()))
+	r.Add("transitions", int(s.tot.Transitions))
 	r.Add("traces_validated_against_impl", cases)
 	r.Add("evaluations", cases)
-	r.Add("distinct_nontrivial", int(c.nontrivial.Load()))
-	r.Set("programs_x_inputs", int(c.programs.Load()))
-	r.Set("cases_with_injection", int(c.injected.Load()))
+	r.Add("distinct_nontrivial", int(s.tot.Nontrivial))
+	r.Set("programs_x_inputs", int(s.programs.Load()))
+	r.Set("cases_with_injection", int(s.tot.Injected))
 	r.Set("programs_per_family", fam)
 	r.Set("cases_per_signature", counts)
-	r.Set("undecided_by_statement", c.notes)
-	r.Set("cases_slower_than_100ms", int(c.parkedEver.Load()))
-	r.Set("hangs", int(c.hangs.Load()))
-	r.Set("hangs_not_triaged", int(c.untriaged.Load()))
+	r.Set("undecided_by_statement", s.notes)
+	r.Set("cases_slower_than_100ms", int(s.tot.Parked))
+	r.Set("hangs", int(s.tot.Hangs))
+	r.Set("hangs_not_triaged", int(s.tot.Untriaged))
+	r.Set("worker_processes", map[string]any{"started": int(s.spawns.Load()), "died": int(s.crashes.Load()), "deaths_not_triaged": int(s.crashesUntriaged.Load()),
+		"programs_abandoned_after_repeated_death": int(s.abandoned.Load()), "programs_skipped_operator_keeps_killing_workers": int(s.skippedBlocked.Load()),
+		"start_errors": int(s.spawnErrors.Load())})
 	r.Set("bounds", map[string]any{"values": []int{0, 1, 2}, "input_len": b.lenSingle, "operand_len_two_operands": b.lenPair,
 		"operand_len_two_operands_depth3": b.lenPairDeep, "operand_len_three_operands": b.lenTriple, "operators": b.chainDepth,
 		"depth3_chain_input_len": b.deepLen, "injections": b.maxInj, "two_injections_up_to_total_len": b.twoInjLen})
-	r.Set("exhaustive", !timedOut.Load() && c.untriaged.Load() == 0)
+	r.Set("exhaustive", !s.timedOut.Load() && s.tot.Untriaged == 0 && s.crashesUntriaged.Load() == 0 && s.abandoned.Load() == 0 &&
+		s.skippedBlocked.Load() == 0 && s.spawnErrors.Load() == 0)
 	r.Sample("SliceIterator([1 0 1]).Uniq.Transform#f0(x+1) => Slice with f0@call1=ErrIteratorSkip: expected [2]")
 	r.Sample("Join(SliceIterator([1]).Transform#f0(x), SliceIterator([2])) => ReadOneLoop with f0@call0=error: expected [] and two further ReadOne calls yield nothing")
 	r.Set("rule", "full cross products, no sampling: A every source x (<=1 operator) x every sink x every input; B core sources {Slice,Generator,closed channel} x every operator chain of length 2.."+
 		fmt.Sprint(b.chainDepth)+" x sinks {Slice, ReadOne loop + 2 extra calls}; C MergeSlices/MergeSliceIterators and Join/Chain over every operand pair (+ three-operand and nested forms); "+
 		"x every single"+map[bool]string{true: " and every pair of", false: ""}[b.maxInj >= 2]+" injected {ErrIteratorSkip, plain error, io.EOF} at every call position of every user function "+
 		"(generator producer, Transform function, Reduce reducer, Process processor). Oracle: pure evaluator over slices, truncation at the first non-skip error, skip removes exactly that element, nothing after an error. "+
-		"Each case runs on the real runtime under a cancelable context and a "+hangTimeout.String()+" watchdog")
+		"Each case runs on the real runtime in a supervised worker process under a cancelable context and a "+hangTimeout.String()+" watchdog; a worker that dies (panic in a library goroutine, runtime fatal error, allocation loop) is a violation for the case it was running")
+}
+
+func childProcs() string {
+	if v := os.Getenv("VERIF_C02_CHILD_PROCS"); v != "" {
+		return v
+	}
+	return childGOMAXPROCS
 }
